@@ -127,4 +127,37 @@ def ReadsTopics (cluster : List KV.GroupBalancer.Part) (topics : List Nat) (got 
 def readPartitions (cluster : List KV.GroupBalancer.Part) (topics : List Nat) : List KV.GroupBalancer.Part :=
   cluster.filter (fun p => topics.contains p.topic)
 
+/-! ### a subscribed topic that does not exist (yet)
+
+`assignTopicPartitions` treats `UnknownTopicOrPartition` from `conn.readPartitions` as "no assignments for the topic" and
+goes on with the partitions it was given; any other error fails the join (no assignment is distributed).  What it is
+given is decided by conn.go `readTopicMetadatav1/v6` on the coordinator connection, which has no topic of its own. -/
+
+/-- the Metadata answer for the requested topics, in request order: `none` = the topic carries UnknownTopicOrPartition -/
+def metadataAnswer (cluster : List KV.GroupBalancer.Part) (missing : List Nat) (topics : List Nat) :
+    List (Nat × Option (List KV.GroupBalancer.Part)) :=
+  topics.map fun t => (t, if missing.contains t then none else some (cluster.filter (fun p => p.topic == t)))
+
+/-- conn.go `readTopicMetadatav1/v6` with `c.topic == ""` (after fix C14-D31): an unknown topic among several is
+reported (`true`) together with the partitions of the others; asked for alone it ends the call with nothing -/
+def readTopicMetadata (ans : List (Nat × Option (List KV.GroupBalancer.Part))) : List KV.GroupBalancer.Part × Bool :=
+  go ans.length ans [] false
+where
+  go (n : Nat) : List (Nat × Option (List KV.GroupBalancer.Part)) → List KV.GroupBalancer.Part → Bool →
+      List KV.GroupBalancer.Part × Bool
+    | [], acc, err => (acc, err)
+    | (_, none) :: rest, acc, _ => if n > 1 then go n rest acc true else ([], true)
+    | (_, some ps) :: rest, acc, err => go n rest (acc ++ ps) err
+
+/-- the same before the fix: the first unknown topic ends the call with no partitions at all -/
+def readTopicMetadataPreFix : List (Nat × Option (List KV.GroupBalancer.Part)) → List KV.GroupBalancer.Part → List KV.GroupBalancer.Part × Bool
+  | [], acc => (acc, false)
+  | (_, none) :: _, _ => ([], true)
+  | (_, some ps) :: rest, acc => readTopicMetadataPreFix rest (acc ++ ps)
+
+/-- what the leader's balancer is given when the topics `missing` do not exist -/
+def leaderPartitions (cluster : List KV.GroupBalancer.Part) (missing : List Nat) (ms : List KV.GroupBalancer.Member) :
+    List KV.GroupBalancer.Part :=
+  (readTopicMetadata (metadataAnswer cluster missing (extractTopics ms))).1
+
 end KV.GroupGlue
